@@ -470,7 +470,7 @@ def check(prop, tier, seed, replay=None):
         trs = [tr]
     else:
         trs = []
-        budget = (1500 if prop == "C15" else 2500) if tier == "quick" else None
+        budget = {"C15": 1500, "C18": 8000}.get(prop, 2500) if tier == "quick" else None
         rng = random.Random(seed + 5)
         graphs = {}
         for kind in KINDS_OF[prop]:
